@@ -162,6 +162,19 @@ func catalogue(tier string) []cfg {
 			}
 		}
 	}
+	// no slack at the documented minimum: Q_min barely above N * 2^logBound
+	for _, sg := range []float64{0, 1 << 10} {
+		for _, ls := range []int{3, 0} {
+			for _, proto := range []string{"ckks-e2s", "ckks-refresh"} {
+				tfn := ""
+				if proto == "ckks-refresh" {
+					tfn = "nil"
+				}
+				r = append(r, full(cfg{proto: proto, chain: mp.ChainCKTight1, ntt: true, n: 1, lin: 0, lsh: -1, lout: -1, sigma: sg, logSlots: ls, logScale: 40, tf: tfn, batched: true}))
+				r = append(r, full(cfg{proto: proto, chain: mp.ChainCKTight2, ntt: true, n: 2, lin: 0, lsh: -1, lout: -1, sigma: sg, logSlots: ls, logScale: 40, tf: tfn, batched: true}))
+			}
+		}
+	}
 	r = append(r, ld(cfg{proto: "ckks-refresh", chain: mp.ChainCK40, ntt: true, lin: 0, lsh: -1, lout: -1, logSlots: 3, logScale: 40, tf: "nil", batched: true}, 5, 2))
 	if th {
 		r = append(r, ld(cfg{proto: "ckks-e2s", chain: mp.ChainCK40, ntt: true, lin: 0, lsh: -1, lout: -1, logSlots: 3, logScale: 40, batched: true}, 8, 2))
